@@ -5,13 +5,18 @@
 # `git -C /repo apply` + ./vcheck + `git checkout` would do, without touching /repo (so several can run in parallel).
 PROP=$1; D=$2; TIER=${3:-quick}
 S=/tmp/seedchk-$$
+WRAP=$(python3 -c "
+import json,re,sys
+try:
+    m=json.load(open('$D/meta.json')); print(' '.join(sorted(set(re.findall(r'-Wl,--wrap=[A-Za-z_,=\\-]+', json.dumps(m))))))
+except Exception: pass" 2>/dev/null)
 rm -rf $S; cp -a /repo $S
 cd $S
 make -s -j4 >/dev/null 2>&1
-gcc -w -DHAVE_CONFIG_H -I$S -I$S/include -I$S/include/libast $D/demo.c $S/src/.libs/libast.a -lpcre -lX11 -lm -ldl -o $S/demo0 2>/dev/null && (cd $S; timeout 120 $S/demo0 >/dev/null 2>&1; echo "demo exit (unmodified) = $?")
+gcc -w -DHAVE_CONFIG_H -I$S -I$S/include -I$S/include/libast $D/demo.c $S/src/.libs/libast.a -lpcre -lX11 -lm -ldl $WRAP -o $S/demo0 2>/dev/null && (cd $S; timeout 120 $S/demo0 >/dev/null 2>&1; echo "demo exit (unmodified) = $?")
 git apply $D/patch.diff || { echo "PATCH DOES NOT APPLY"; rm -rf $S; exit 3; }
 VERIF_REPO=$S /verif/tools/baseline.sh | tail -2
-gcc -w -DHAVE_CONFIG_H -I$S -I$S/include -I$S/include/libast $D/demo.c $S/src/.libs/libast.a -lpcre -lX11 -lm -ldl -o $S/demo1 2>/dev/null && (cd $S; timeout 120 $S/demo1 >/dev/null 2>&1; echo "demo exit (patched) = $?")
+gcc -w -DHAVE_CONFIG_H -I$S -I$S/include -I$S/include/libast $D/demo.c $S/src/.libs/libast.a -lpcre -lX11 -lm -ldl $WRAP -o $S/demo1 2>/dev/null && (cd $S; timeout 120 $S/demo1 >/dev/null 2>&1; echo "demo exit (patched) = $?")
 cd /verif && VERIF_REPO=$S VERIF_JOBS=4 ./vcheck $PROP $TIER > $S.out 2>/dev/null; rc=$?
 echo "vcheck $PROP $TIER on patched copy: exit=$rc violations=$(grep -c '^VIOLATION' $S.out)"
 grep '^VIOLATION' $S.out | head -3 | cut -c1-330
